@@ -167,7 +167,7 @@ def run(m, chk):
         step_applied(r, chk, nq19)
     from .extra import scale_reaches
 
-    scale_reaches(r, chk, ["heavy.Calculus.derivate_nonrational_bezier"], floor=2)
+    scale_reaches(r, chk, ["heavy.Calculus.derivate_nonrational_bezier"], floor=1)
     from .extra import starts_in_range
 
     starts_in_range(r, chk, "advanced.Projection.point_on_bezier", "newton_point_on_curve")
